@@ -41,6 +41,11 @@ def run(P, tier="quick"):
             leaked.setdefault(rid, (names, ret, trace))
         for rid, name, node, trace in tr.overwrites:
             leaked.setdefault(rid, ([name], node, trace + ["overwritten while owned"]))
+        for rid, name, node, trace in tr.double_release:
+            callee, line, var = sites.get(rid, ("?", 0, name))
+            R.violated(Finding("R01", props_for(f) | {"C12"}, f.file, f.name, "double-release:%s" % var,
+                               "%s obtained from %s() at line %d is released a second time at line %d on a path where it "
+                               "was already released" % (var, callee, line, node.line), node.line, trace))
         for rid, (callee, line, var) in sites.items():
             nsites += 1
             key_anchor = "%s<-%s" % (var, callee)
